@@ -234,6 +234,18 @@ fn is_stream(fd: i32) -> bool {
     unsafe { libc::lseek(fd, 0, libc::SEEK_CUR) == -1 && errno() == libc::ESPIPE }
 }
 
+/// A byte stream whose transfers the kernel may cut short (pipes, stream sockets, ttys). A datagram is
+/// sent and received whole.
+fn may_be_short(fd: i32) -> bool {
+    if !is_stream(fd) {
+        return false;
+    }
+    let mut ty: libc::c_int = 0;
+    let mut len = std::mem::size_of::<libc::c_int>() as libc::socklen_t;
+    let r = unsafe { libc::getsockopt(fd, libc::SOL_SOCKET, libc::SO_TYPE, &mut ty as *mut _ as *mut libc::c_void, &mut len) };
+    r != 0 || ty == libc::SOCK_STREAM
+}
+
 fn digest(bytes: &[u8]) -> u64 {
     let mut h = 0xcbf29ce484222325u64;
     for b in bytes {
@@ -487,7 +499,7 @@ impl KOp {
             (self.addr as usize, self.len as usize)
         };
         let stream = is_stream(fd);
-        let n = if stream { cx.shorten(cap, "k.short.read") } else { cap };
+        let n = if stream && may_be_short(fd) { cx.shorten(cap, "k.short.read") } else { cap };
         let r = if self.opcode == OP_RECV {
             ret(unsafe { libc::recv(fd, ptr as *mut libc::c_void, n, (self.opflags as i32) | libc::MSG_DONTWAIT) })
         } else if stream || self.off == u64::MAX {
@@ -532,7 +544,7 @@ impl KOp {
     fn do_write(&mut self, cx: &mut Ctx<'_>) -> Outcome {
         let fd = self.fd;
         let stream = is_stream(fd);
-        let n = if stream { cx.shorten(self.len as usize, "k.short.write") } else { self.len as usize };
+        let n = if stream && may_be_short(fd) { cx.shorten(self.len as usize, "k.short.write") } else { self.len as usize };
         let ptr = self.addr as *const libc::c_void;
         if n > 0 {
             cx.digest = digest(unsafe { std::slice::from_raw_parts(ptr as *const u8, n) });
@@ -592,6 +604,11 @@ impl KOp {
             let r = ret(unsafe { libc::recvmsg(fd, self.addr as *mut libc::msghdr, fl) });
             if r == -libc::EAGAIN {
                 return Outcome::NotReady;
+            }
+            if r == -libc::EFAULT && std::env::var_os("VERIF_DEBUG_EFAULT").is_some() {
+                let m = unsafe { &*(self.addr as *const libc::msghdr) };
+                let iov0 = if m.msg_iovlen > 0 && !m.msg_iov.is_null() { unsafe { *m.msg_iov } } else { libc::iovec { iov_base: std::ptr::null_mut(), iov_len: 0 } };
+                eprintln!("EFAULT: name {:?}/{} iov {:?} x{} [0]={:?}/{} control {:?}/{} flags {:#x}", m.msg_name, m.msg_namelen, m.msg_iov, m.msg_iovlen, iov0.iov_base, iov0.iov_len, m.msg_control, m.msg_controllen, m.msg_flags);
             }
             return Outcome::Done(r, 0);
         }
